@@ -1,7 +1,7 @@
 (* C01 — property theorems only.  Each is closed by [exact <lemma>] and followed by
    Print Assumptions; non-vacuity Examples at the end. *)
 From V Require Import Common.NumFacts C01.Model C01.Proofs C01.ProofsMulti C01.ProofsMix C01.ProofsOps
-  C01.ProofsTotal C01.ProofsSplit C01.ProofsCopyM C01.ProofsAlias.
+  C01.ProofsTotal C01.ProofsSplit C01.ProofsCopyM C01.ProofsCopy C01.ProofsAlias.
 
 (* ===== mixing: value =====
    Whatever the receiver (single- or multi-phase), the inlets (any phases, single/multi, the
@@ -36,6 +36,15 @@ Theorem C01_mix_total : forall st r ins eb,
   exists r', mix st r ins eb 0 = Ok r'.
 Proof. exact mix_total_lemma. Qed.
 Print Assumptions C01_mix_total.
+
+(* totality whatever the number of failing temperature solves: the only error that can come out is the
+   solver giving up (ERuntime = the RuntimeError of the solver) at the end of the multi-phase fallback *)
+Theorem C01_mix_total_any_hf : forall st r ins eb hf,
+  wf_store st -> (forall s, In s st -> nonneg_stream s) ->
+  (r < length st)%nat -> (forall i, In i ins -> (i < length st)%nat) -> pkgs_ok st r ins ->
+  (exists r', mix st r ins eb hf = Ok r') \/ (mix st r ins eb hf = Err ERuntime /\ eb = true /\ hf <> O).
+Proof. exact mix_total_hf_lemma. Qed.
+Print Assumptions C01_mix_total_any_hf.
 
 (* ===== the indexer methods themselves ===== *)
 Theorem C01_material_indexer_mix_value : forall self0 others m',
@@ -123,6 +132,34 @@ Theorem C01_copy_remove : forall st d s st',
 Proof. exact copy_remove_lemma. Qed.
 Print Assumptions C01_copy_remove.
 
+(* partial IDs (one chemical / a list) and exclude, between two different streams of either package: the
+   selected chemicals ([selc]: the positions chosen by IDs/exclude in the source's package) are taken over,
+   every other chemical of the receiver is untouched, with remove the selected chemicals leave the source *)
+Theorem C01_copy_partial : forall st d s i remove exclude st',
+  wf_store st -> d <> s -> i <> IdAll -> step st (OCopyFlow d s i remove exclude) = Ok st' ->
+  exists ss b idx, nth_error st s = Some ss /\ select (spkg ss) i exclude = Ok (b, idx) /\
+  (NoDup idx -> forall c,
+     tot_at st' c d == (if selc (spkg ss) idx c then tot_at st c s else tot_at st c d) /\
+     tot_at st' c s == (if remove && selc (spkg ss) idx c then 0 else tot_at st c s)) /\
+  forall k, k <> d -> k <> s -> nth_error st' k = nth_error st k.
+Proof. exact copy_partial_thm. Qed.
+Print Assumptions C01_copy_partial.
+(* a stream copied onto itself: the copy changes nothing; with remove the selected flows are then taken
+   away - i.e. s.copy_flow(s, remove=True) LOSES the selected material (Example C01_copy_onto_itself_loses) *)
+Theorem C01_copy_onto_itself_partial : forall st d i remove exclude st',
+  wf_store st -> i <> IdAll -> step st (OCopyFlow d d i remove exclude) = Ok st' ->
+  exists ss b idx, nth_error st d = Some ss /\ select (spkg ss) i exclude = Ok (b, idx) /\
+  (NoDup idx -> forall c,
+     tot_at st' c d == (if remove && selc (spkg ss) idx c then 0 else tot_at st c d)) /\
+  forall k, k <> d -> nth_error st' k = nth_error st k.
+Proof. exact copy_onto_itself_partial. Qed.
+Print Assumptions C01_copy_onto_itself_partial.
+Theorem C01_copy_onto_itself_all : forall st d remove exclude st',
+  step st (OCopyFlow d d IdAll remove exclude) = Ok st' ->
+  forall c, tot_at st' c d == (if remove && negb exclude then 0 else tot_at st c d).
+Proof. exact copy_onto_itself_all. Qed.
+Print Assumptions C01_copy_onto_itself_all.
+
 (* ===== copy with removal into a multi-phase receiver (MultiStream.copy_flow) =====
    Single-phase source, no exclude: whatever the phase selector (none, the source's phase, another
    phase) and the IDs (all / one / a list), what leaves the source is exactly what the receiver -
@@ -144,6 +181,29 @@ Theorem C01_multi_copy_remove_multi : forall st d s ps i st' m o,
   forall c, tot_at st' c d + tot_at st' c s == tot_at st c s + rows_tot (mpkg m) (kept_rows sel idx (mrows m)) c.
 Proof. exact multi_copy_remove_multi. Qed.
 Print Assumptions C01_multi_copy_remove_multi.
+
+(* exclude=True (IDs given; the IDs=... case is a recorded finding): everything but the excluded cells moves,
+   the receiver keeps its own content in the excluded cells ([excluded_rows]) *)
+Theorem C01_multi_copy_remove_multi_exclude : forall st d s ps i st' m o,
+  wf_store st -> d <> s -> i <> IdAll -> nth_error st d = Some (MS m) -> nth_error st s = Some (MS o) ->
+  length (mrows o) = length (mrows m) ->
+  step st (OCopyFlowM d s ps i true true) = Ok st' ->
+  exists idx sel, ids_index (mpkg m) i = Ok idx /\ phase_sel (mphases m) ps = Ok sel /\
+  forall c, tot_at st' c d + tot_at st' c s == tot_at st c s + rows_tot (mpkg m) (excluded_rows sel idx (mrows m)) c.
+Proof. exact multi_copy_remove_multi_exclude. Qed.
+Print Assumptions C01_multi_copy_remove_multi_exclude.
+(* single-phase source, exclude, no selector or the source's phase (another selector is a recorded finding):
+   the receiver keeps every other phase row and, in the source's phase, its own excluded cells *)
+Theorem C01_multi_copy_remove_single_exclude : forall st d s ps i st' m o,
+  wf_store st -> d <> s -> i <> IdAll -> nth_error st d = Some (MS m) -> nth_error st s = Some (SS o) ->
+  step st (OCopyFlowM d s ps i true true) = Ok st' ->
+  exists idx sel opi, ids_index (mpkg m) i = Ok idx /\ phase_sel (mphases m) ps = Ok sel /\
+    phase_index (cphase o) (mphases m) = Ok opi /\
+  ((match sel with None => true | Some pi => Nat.eqb pi opi end) = true ->
+   forall c, tot_at st' c d + tot_at st' c s ==
+             tot_at st c s + rows_tot (mpkg m) (upd (mrows m) opi (keep_at (nth opi (mrows m) []) idx)) c).
+Proof. exact multi_copy_remove_single_exclude. Qed.
+Print Assumptions C01_multi_copy_remove_single_exclude.
 
 (* The statement for every source and option: an empty multi-phase receiver plus the source hold
    afterwards what the source held.  The faithful model REFUTES it: rows are matched by position, so a
@@ -186,6 +246,7 @@ Print Assumptions C01_multi_copy_remove_refuted.
 Theorem C01_alias_mix_value : forall a r ins eb hf a' vst h,
   views (cells a) (hs a) = Ok vst -> wf_store vst -> nth_error (hs a) r = Some h ->
   (eb = true -> own_view_only (hs a) vst r ins = false) ->
+  mix_rebind vst r ins eb hf = None ->
   astep a (OMix r ins eb hf) = Ok a' ->
   exists x, nth_error (cells a') (hcell h) = Some x /\
     (forall c, tot x c == qsum (map (tot_at vst c) ins)) /\
@@ -193,6 +254,20 @@ Theorem C01_alias_mix_value : forall a r ins eb hf a' vst h,
     length (hs a') = length (hs a).
 Proof. exact alias_mix_value. Qed.
 Print Assumptions C01_alias_mix_value.
+(* when the mix REPLACES the receiver's indexer (multi-phase fallback; copy_like from a stream with several
+   phases into a single-phase receiver) the receiver moves to new flow data of its own, which holds the sum;
+   the other handles stay on the old data and are no longer updated *)
+Theorem C01_alias_mix_value_rebind : forall a r ins eb hf a' vst h resid,
+  views (cells a) (hs a) = Ok vst -> wf_store vst -> nth_error (hs a) r = Some h ->
+  (eb = true -> own_view_only (hs a) vst r ins = false) ->
+  mix_rebind vst r ins eb hf = Some resid ->
+  astep a (OMix r ins eb hf) = Ok a' ->
+  exists x, nth_error (hs a') r = Some (HCell (length (cells a))) /\
+    nth_error (cells a') (length (cells a)) = Some x /\
+    (forall c, tot x c == qsum (map (tot_at vst c) ins)) /\
+    length (cells a') = S (length (cells a)).
+Proof. exact alias_mix_value_rebind. Qed.
+Print Assumptions C01_alias_mix_value_rebind.
 (* without that hypothesis the statement is REFUTED by the faithful model: an energy-balanced mix of a
    MultiStream whose only non-empty inlet is one of its own sub-streams empties it (MaterialIndexer.copy_like
    starts with self.empty(), which wipes the source row before it is read) *)
@@ -315,6 +390,17 @@ Example C01_nonvacuous_alias :
              | Err _ => false end
   | Err _ => false end = true.
 Proof. split; vm_compute; reflexivity. Qed.
+Example C01_copy_onto_itself_loses :
+  match step exStore (OCopyFlow 0 0 IdAll true false) with
+  | Ok st' => qeqb (tot_at exStore 1%nat 0) 2 && qeqb (tot_at st' 1%nat 0) 0
+  | Err _ => false end = true /\
+  exists st1 st2, step exStore (OCopyFlow 0 1 (IdList [0; 2]%nat) true false) = Ok st1 /\
+                  step exStore (OCopyFlow 0 2 (IdOne 0) true true) = Ok st2.
+Proof. split; [vm_compute; reflexivity|]. eexists; eexists. split; vm_compute; reflexivity. Qed.
+Example C01_nonvacuous_multi_exclude : exists st1 st2,
+  step (exStore ++ [MS (mkm exP1 [Pg; Ps] [[1; 1; 1]; [2; 0; 2]])]) (OCopyFlowM 2 3 PhAll (IdOne 0) true true) = Ok st1 /\
+  step (exStore ++ [SS (mkc exP1 PL [1; 1; 1])]) (OCopyFlowM 2 3 (PhOne Pl) (IdList [0; 1]%nat) true true) = Ok st2.
+Proof. eexists; eexists. split; vm_compute; reflexivity. Qed.
 Example C01_nonvacuous_split :
   match split_to (MS (mkm exP1 [Pg; Pl] [[0; 1; 0]; [8; 0; 3]])) (SS (mkc exP0 Pl [1; 2; 0; 0]))
           (SS (mkc exP1 Ps [0; 0; 0])) (SpV [1 # 2; 1 # 4; 1]) true with
